@@ -330,8 +330,6 @@ class DOK(SparseArray, NDArrayOperatorsMixin):
                 raise IndexError("Unequal length of index sequences!")
             return self._fancy_getitem(key)
 
-        key = normalize_index(key, self.shape)
-
         ret = self.asformat("coo")[key]
         if isinstance(ret, SparseArray):
             ret = ret.asformat("dok")
